@@ -1,0 +1,347 @@
+//go:build verif
+
+package runner
+
+// Scheduler trace hooks (build tag "verif"), used by the external verification harness.
+//
+// With VERIF_TRACE=<file> every Run appends to <file> the action graphs (package level and, per analysed
+// package, analyzer level) and the sequence of scheduling events (seed, deq, spawn, inline, start, end, rel,
+// dec, enq, close, exit) in an order that is a linearisation of the real execution:
+//   - all events are appended under one mutex;
+//   - the atomic decrement of a pending counter and its log entry are one critical section
+//     (verifDecBegin/verifDecEnd), so the logged order of decrements of one counter is the real one;
+//   - a send is logged before it happens, a receive after it happened; on the unbuffered package-level
+//     queue the sender's next event additionally waits until the matching receive has been logged
+//     (the sender really was blocked until then);
+//   - an acquire is logged after it happened, a release before it happens.
+// With VERIF_YIELD=<seed> the hooks inject runtime.Gosched / short sleeps chosen by a stateless hash of
+// (seed, site, action name) to widen the explored schedules. Neither variable set: the hooks only test two
+// booleans that are written once during package initialisation (no synchronisation is added, so a -race
+// build observes the scheduler's own synchronisation only).
+
+import (
+	"fmt"
+	"hash/fnv"
+	"os"
+	"runtime"
+	"strconv"
+	"strings"
+	"sync"
+	"sync/atomic"
+	"time"
+)
+
+type verifNode struct {
+	lvl int // -1: package level; otherwise the package-level id of the package being analysed
+	id  int
+}
+
+type verifSender struct{ lvl, id int }
+
+type verifTracer struct {
+	mu    sync.Mutex
+	cond  *sync.Cond
+	path  string
+	nodes map[action]verifNode
+	buf   strings.Builder
+	// package level only: messages sent but whose receive has not been logged yet
+	unreceived map[verifSender]int
+	msgSender  map[verifNode]verifSender
+}
+
+var (
+	verifTraceOn bool
+	verifYieldOn bool
+	verifSeedVal uint64
+	verifT       *verifTracer
+)
+
+func init() {
+	if p := os.Getenv("VERIF_TRACE"); p != "" {
+		verifTraceOn = true
+		verifT = &verifTracer{path: p}
+		verifT.cond = sync.NewCond(&verifT.mu)
+		verifT.reset()
+	}
+	if s := os.Getenv("VERIF_YIELD"); s != "" {
+		if v, err := strconv.ParseUint(s, 10, 64); err == nil {
+			verifYieldOn = true
+			verifSeedVal = v
+		}
+	}
+}
+
+func (t *verifTracer) reset() {
+	t.nodes = map[action]verifNode{}
+	t.unreceived = map[verifSender]int{}
+	t.msgSender = map[verifNode]verifSender{}
+	t.buf.Reset()
+}
+
+func verifName(a action) string {
+	switch a := a.(type) {
+	case *packageAction:
+		if a.Package == nil {
+			return "ROOT"
+		}
+		return a.Package.ID
+	case *analyzerAction:
+		if a.Analyzer == nil {
+			return "ROOT"
+		}
+		return a.Analyzer.Name
+	}
+	return "?"
+}
+
+func verifPending(a action) uint32 {
+	switch a := a.(type) {
+	case *packageAction:
+		return atomic.LoadUint32(&a.pending)
+	case *analyzerAction:
+		return atomic.LoadUint32(&a.pending)
+	}
+	return 0
+}
+
+// verifYield perturbs the schedule; stateless, so it adds no synchronisation.
+func verifYield(site int, a action) {
+	if !verifYieldOn {
+		return
+	}
+	h := fnv.New64a()
+	fmt.Fprintf(h, "%d/%d/%s", verifSeedVal, site, verifName(a))
+	v := h.Sum64()
+	switch v % 8 {
+	case 4, 5:
+		runtime.Gosched()
+	case 6:
+		time.Sleep(time.Duration((v>>8)%200) * time.Microsecond)
+	case 7:
+		time.Sleep(time.Duration((v>>8)%2000) * time.Microsecond)
+	}
+}
+
+// verifGraph dumps the action graph rooted at root. parent is nil for the package level and the package
+// action for an analyzer level. Ids are assigned in depth-first post-order, so dependencies have smaller
+// ids than their dependents and the root has the largest id.
+func verifGraph(parent action, root action, capacity int) {
+	if !verifTraceOn {
+		return
+	}
+	t := verifT
+	t.mu.Lock()
+	defer t.mu.Unlock()
+	lvl := -1
+	if parent != nil {
+		pn, ok := t.nodes[parent]
+		if !ok || len(root.Deps()) == 0 {
+			return
+		}
+		lvl = pn.id
+	} else {
+		t.reset()
+		fmt.Fprintf(&t.buf, "run %d\n", capacity)
+	}
+	var order []action
+	var dfs func(a action)
+	dfs = func(a action) {
+		if _, ok := t.nodes[a]; ok {
+			return
+		}
+		t.nodes[a] = verifNode{lvl, -1} // visiting
+		for _, d := range a.Deps() {
+			dfs(d)
+		}
+		t.nodes[a] = verifNode{lvl, len(order)}
+		order = append(order, a)
+	}
+	dfs(root)
+	ids := func(as []action) string {
+		out := make([]string, len(as))
+		for i, x := range as {
+			if n, ok := t.nodes[x]; ok && n.lvl == lvl {
+				out[i] = strconv.Itoa(n.id)
+			} else {
+				out[i] = "-2"
+			}
+		}
+		return strings.Join(out, ",")
+	}
+	fmt.Fprintf(&t.buf, "graph %d %d %d\n", lvl, t.nodes[root].id, len(order))
+	for i, a := range order {
+		f := 0
+		if a.IsFailed() {
+			f = 1
+		}
+		fmt.Fprintf(&t.buf, "node %d %d %d deps=%s trig=%s name=%s\n", i, f, verifPending(a), ids(a.Deps()), ids(a.Triggers()), verifName(a))
+	}
+}
+
+// waitReceived blocks (releasing the mutex) until every message sent by the given package-level thread
+// has been logged as received: the thread really was blocked in its send until the receive happened, so
+// its next event must follow the receive in the log.
+func (t *verifTracer) waitReceived(me verifSender) {
+	for t.unreceived[me] > 0 {
+		t.cond.Wait()
+	}
+}
+
+// ev appends one event. sender identifies the acting thread for the rendezvous bookkeeping of the
+// package-level queue (id -1: the goroutine that seeds the queue).
+func (t *verifTracer) ev(kind string, a, b action, extra int, locked bool) {
+	if !locked {
+		t.mu.Lock()
+		defer t.mu.Unlock()
+	}
+	na, ok := t.nodes[a]
+	if !ok {
+		return
+	}
+	nb := verifNode{na.lvl, -1}
+	if b != nil {
+		nb, ok = t.nodes[b]
+		if !ok {
+			nb = verifNode{na.lvl, -2}
+		}
+	}
+	if na.lvl == -1 {
+		me := verifSender{-1, na.id}
+		switch kind {
+		case "seed":
+			me.id = -1
+			t.waitReceived(me)
+			t.unreceived[me]++
+			t.msgSender[na] = me
+		case "enq":
+			t.unreceived[me]++
+			t.msgSender[nb] = me
+		case "deq":
+			if s, ok := t.msgSender[na]; ok {
+				delete(t.msgSender, na)
+				t.unreceived[s]--
+				t.cond.Broadcast()
+			}
+		}
+	}
+	fmt.Fprintf(&t.buf, "ev %d %s %d %d %d\n", na.lvl, kind, na.id, nb.id, extra)
+}
+
+func verifBool(b bool) int {
+	if b {
+		return 1
+	}
+	return 0
+}
+
+func verifSeed(a action) {
+	if verifTraceOn {
+		verifT.ev("seed", a, nil, 0, false)
+	}
+	verifYield(1, a)
+}
+
+func verifDequeue(a action) {
+	if verifTraceOn {
+		verifT.ev("deq", a, nil, 0, false)
+	}
+	verifYield(2, a)
+}
+
+// verifSpawn is called after a blocking Acquire succeeded, before the handler goroutine is started.
+func verifSpawn(a action) {
+	if verifTraceOn {
+		verifT.ev("spawn", a, nil, 0, false)
+	}
+	verifYield(3, a)
+}
+
+// verifAcquired is called after AcquireMaybe: ok means a token was taken and a goroutine will be started,
+// otherwise the handler runs inline.
+func verifAcquired(a action, ok bool) {
+	if verifTraceOn {
+		if ok {
+			verifT.ev("spawn", a, nil, 0, false)
+		} else {
+			verifT.ev("inline", a, nil, 0, false)
+		}
+	}
+	verifYield(4, a)
+}
+
+func verifStart(a action) {
+	verifYield(5, a)
+	if verifTraceOn {
+		verifT.ev("start", a, nil, 0, false)
+	}
+}
+
+func verifEnd(a action) {
+	if verifTraceOn {
+		verifT.ev("end", a, nil, verifBool(a.IsFailed()), false)
+	}
+	verifYield(6, a)
+}
+
+// verifRelease is called immediately before the token is released.
+func verifRelease(a action) {
+	if verifTraceOn {
+		verifT.ev("rel", a, nil, 0, false)
+	}
+}
+
+// verifDecBegin/verifDecEnd bracket the atomic decrement of a trigger's pending counter.
+func verifDecBegin(a action) {
+	verifYield(7, a)
+	if verifTraceOn {
+		verifT.mu.Lock()
+		if n, ok := verifT.nodes[a]; ok && n.lvl == -1 {
+			verifT.waitReceived(verifSender{-1, n.id})
+		}
+	}
+}
+
+func verifDecEnd(a, t action, last bool) {
+	if verifTraceOn {
+		verifT.ev("dec", a, t, verifBool(last), true)
+		verifT.mu.Unlock()
+	}
+}
+
+// verifEnqueue is called immediately before the send.
+func verifEnqueue(a, t action) {
+	if verifTraceOn {
+		verifT.ev("enq", a, t, 0, false)
+	}
+	verifYield(8, t)
+}
+
+// verifClose is called by the root's handler immediately before it closes the queue.
+func verifClose(a action) {
+	if verifTraceOn {
+		verifT.ev("close", a, nil, 0, false)
+	}
+}
+
+// verifExit is called by a main loop after its queue was closed and drained; the package level flushes.
+func verifExit(root action) {
+	if !verifTraceOn {
+		return
+	}
+	t := verifT
+	t.mu.Lock()
+	defer t.mu.Unlock()
+	n, ok := t.nodes[root]
+	if !ok {
+		return
+	}
+	fmt.Fprintf(&t.buf, "ev %d exit %d -1 0\n", n.lvl, n.id)
+	if n.lvl == -1 {
+		t.buf.WriteString("endrun\n")
+		if f, err := os.OpenFile(t.path, os.O_APPEND|os.O_CREATE|os.O_WRONLY, 0o666); err == nil {
+			f.WriteString(t.buf.String())
+			f.Close()
+		}
+		t.reset()
+	}
+}
